@@ -103,15 +103,27 @@ pub fn jstr(s: &str) -> String {
     o
 }
 
-/// Run `f`, turning a panic into Err(message).
+thread_local! { static LAST_PANIC_LOC: std::cell::RefCell<String> = std::cell::RefCell::new(String::new()); }
+
+/// Quiet panic hook that remembers where the panic was raised (per thread).
+pub fn install_hook() {
+    std::panic::set_hook(Box::new(|info| {
+        let loc = info.location().map(|l| format!("{}:{}", l.file(), l.line())).unwrap_or_default();
+        LAST_PANIC_LOC.with(|c| *c.borrow_mut() = loc);
+    }));
+}
+
+/// Run `f`, turning a panic into Err(message at file:line).
 pub fn catch<T>(f: impl FnOnce() -> T + std::panic::UnwindSafe) -> Result<T, String> {
     std::panic::catch_unwind(f).map_err(|e| {
-        if let Some(s) = e.downcast_ref::<&str>() {
+        let msg = if let Some(s) = e.downcast_ref::<&str>() {
             s.to_string()
         } else if let Some(s) = e.downcast_ref::<String>() {
             s.clone()
         } else {
             "panic".to_string()
-        }
+        };
+        let loc = LAST_PANIC_LOC.with(|c| c.borrow().clone());
+        format!("{} at {}", msg, loc)
     })
 }
